@@ -7,6 +7,7 @@
 package c12
 
 import (
+	"encoding/json"
 	"fmt"
 	"net/http"
 	"sort"
@@ -326,6 +327,11 @@ func (w *world) classify(e *rm.Entry) entryClass {
 		return entryClass{kind: "other"}
 	}
 	return entryClass{kind: "other"}
+}
+
+func caseJSON(c Case) string {
+	b, _ := json.Marshal(c)
+	return string(b)
 }
 
 func sortedHostNames(m map[string]bool) []string {
